@@ -85,6 +85,8 @@ def inline_new_helpers(prog):
                 changed = True
         if not changed:
             break
+    for k in sorted({c for c, _ in done}):
+        thread_jumps(prog.fns[k])
     # a helper that is now spliced into every caller is no function of its own any more: inventories (who writes a
     # field, who calls an unchecked lookup, which panic sites are reachable) see its body in the callers only
     still = set()
@@ -113,3 +115,92 @@ def inline_new_helpers(prog):
             pass        # promoted constants stay addressable
         prog.removed_helpers.append(ck)
     return done
+
+
+def _const_of(rv):
+    """('int', v) for a constant bool / integer, ('variant', vi) for an enum value built in place, else None"""
+    if rv["op"] == "use" and rv["a"][0].get("k") == "const" and isinstance(rv["a"][0].get("v"), (bool, int)):
+        return ("int", int(rv["a"][0]["v"]))
+    if rv["op"] == "agg" and rv.get("kind") == "adt" and rv.get("vi") is not None:
+        return ("variant", int(rv["vi"]))
+    return None
+
+
+def thread_jumps(f, rounds=6):
+    """jump threading after inlining: a block that assigns a constant (or an enum variant) to a local and jumps to a
+    block which only copies that local around and switches on it (or on its discriminant) goes to the switch target
+    directly. `if helper() {..}` with `fn helper() -> bool { if a { return false; } b }` becomes the nest of tests
+    it was before the helper was extracted. The joined block is copied into the predecessor, nothing is removed."""
+    blocks = f["blocks"]
+    n_done = 0
+    for _ in range(rounds):
+        changed = False
+        for x in range(len(blocks)):
+            bx = blocks[x]
+            t = bx["term"]
+            if t["k"] != "goto" or bx.get("cleanup"):
+                continue
+            chain, j, hops = [], t["target"], 0
+            while blocks[j]["term"]["k"] == "goto" and hops < 4 and j != x and len(blocks[j]["stmts"]) <= 6 and not blocks[j].get("cleanup"):
+                chain.append(j)
+                j = blocks[j]["term"]["target"]
+                hops += 1
+            bj = blocks[j]
+            if bj["term"]["k"] != "switch" or j == x or len(bj["stmts"]) > 6:
+                continue
+            chain.append(j)
+            known = {}
+            for st in bx["stmts"]:
+                d = st["dst"]
+                if d is None:
+                    continue
+                if d["p"]:
+                    known.pop(d["l"], None)
+                    continue
+                c = _const_of(st["rv"])
+                if c is not None:
+                    known[d["l"]] = c
+                elif st["rv"]["op"] == "use" and st["rv"]["a"][0].get("k") in ("copy", "move") and not st["rv"]["a"][0]["pl"]["p"] and st["rv"]["a"][0]["pl"]["l"] in known:
+                    known[d["l"]] = known[st["rv"]["a"][0]["pl"]["l"]]
+                else:
+                    known.pop(d["l"], None)
+            if not known:
+                continue
+            ok = True
+            k2 = dict(known)
+            joined = [st for c in chain for st in blocks[c]["stmts"]]
+            for st in joined:
+                d, rv = st["dst"], st["rv"]
+                if d is None or d["p"]:
+                    ok = False
+                    break
+                if rv["op"] == "use" and rv["a"][0].get("k") in ("copy", "move") and not rv["a"][0]["pl"]["p"]:
+                    src = rv["a"][0]["pl"]["l"]
+                    if src in k2:
+                        k2[d["l"]] = k2[src]
+                    else:
+                        k2.pop(d["l"], None)
+                elif rv["op"] == "discr" and not rv["place"]["p"] and k2.get(rv["place"]["l"], (None,))[0] == "variant":
+                    k2[d["l"]] = ("int", k2[rv["place"]["l"]][1])
+                elif _const_of(rv) is not None:
+                    k2[d["l"]] = _const_of(rv)
+                else:
+                    ok = False
+                    break
+            if not ok:
+                continue
+            disc = bj["term"]["discr"]
+            if disc.get("k") not in ("copy", "move") or disc["pl"]["p"] or k2.get(disc["pl"]["l"], (None,))[0] != "int":
+                continue
+            v = k2[disc["pl"]["l"]][1]
+            nxt = bj["term"]["otherwise"]
+            for val, tb in bj["term"]["targets"]:
+                if val == v:
+                    nxt = tb
+            bx["stmts"] = bx["stmts"] + copy.deepcopy(joined)
+            bx["term"] = dict(t, target=nxt)
+            changed = True
+            n_done += 1
+        if not changed:
+            break
+    return n_done
